@@ -207,9 +207,18 @@ def w3(fb, chk):
         sym = Sym(f, fb)
         ret = sym.local(0)
         if ret[0] != "agg":
-            chk.bad("W3", short + "::new", "constructor does not return a plain struct aggregate: %s" % show(ret)[:100], f.loc())
-            continue
-        fields = dict(ret[3])
+            # built step by step (default value + setters / field updates): read the returned value field by field
+            from . import headers
+            hs = headers.built_headers(fb, f)
+            if len(hs) != 1 or any(hs[0][k] is None for k in ("request", "flags", "size")):
+                chk.bad("W3", short + "::new", "constructor's return value cannot be read field by field: %s" % show(ret)[:100], f.loc())
+                continue
+            adt0 = fb.adt_generic.get(f.self_adt)
+            fn0 = [x["name"] for x in adt0["variants"][0]["fields"]] if adt0 else ["request", "flags", "size"]
+            fields = {fn0[0]: hs[0]["request"], fn0[1]: hs[0]["flags"], fn0[2]: hs[0]["size"]}
+            sym = hs[0]["sym"]
+        else:
+            fields = dict(ret[3])
         names = f.arg_names()
         # identify the flags field = the one whose term depends on the `flags` parameter
         # (position: header field at offset 4 => second declared field)
@@ -288,8 +297,24 @@ def w3(fb, chk):
                           "request header flags expression %s does not pass the configured flags / sets REPLY" % show(args[1]),
                           g.loc(t["line"]))
             else:
-                chk.check(fv == 0, "W3", key, "request header built with flags = 0 (NEED_REPLY added under negotiation only)",
-                          "request header built with constant flags %s (want 0)" % (hex(fv) if fv is not None else show(args[1])),
+                okv = fv == 0
+                detail = hex(fv) if fv is not None else show(args[1])
+                if not okv:
+                    # the flags may be handed to the constructor already combined: decide on the header value that reaches
+                    # the socket on every path (version only, or version | NEED_REPLY under a negotiated-flag test)
+                    from . import headers
+                    _fi, hs = headers.sent_headers(fb, g)
+                    gpu = "Gpu" in (c.get("self_ty") or resolved(c).get("self_ty") or "")
+                    bad = []
+                    for h in hs:
+                        guarded = any(a[0] == "true" and a[1][0] in ("field", "deref") for a in h["atoms"])
+                        allowed = {0} if gpu else ({wire.FLAG_VERSION, wire.FLAG_VERSION | wire.FLAG_NEED_REPLY} if guarded else {wire.FLAG_VERSION})
+                        if h["flags_value"] not in allowed:
+                            bad.append(hex(h["flags_value"]) if h["flags_value"] is not None else show(h["flags"])[:40])
+                    okv = bool(hs) and not bad
+                    detail = "flags words sent: %s" % (bad or "none found")
+                chk.check(okv, "W3", key, "request header built with flags = 0 (NEED_REPLY added under negotiation only)",
+                          "request header built with flags %s (want version only; NEED_REPLY only under the negotiated reply-ack flag)" % detail,
                           g.loc(t["line"]))
     chk.floor("W3", ncallers, 5)
     # reply headers, whatever way they are put together (constructor call, copy of the request plus setters, literal):
